@@ -19,7 +19,10 @@ from ..common import rat, unrat
 PROP = "C20"
 RULE = ("random call histories (8-22 calls) on a shared pool of circuits / Pauli terms and sums / measurement sets / "
         "distributions / wavefunctions plus the raw lists, dicts and arrays they were built from; every call is "
-        "bracketed by deep snapshots of the WHOLE pool and made twice on the same inline arguments; identical calls and "
+        "bracketed by deep snapshots of the WHOLE pool and made twice on the same inline arguments; every operation is "
+        "written in all the forms a user has (a + b, `a += b` on an alias, reduce, sum(.., start), the dunder by name, "
+        "pow(), reflected / subtracted / divided forms, comparisons, hash, len, iteration, indexing, truth value, copy / "
+        "deepcopy / pickle followed by edits of the copy, `+=` on the circuit cached inside an operator); identical calls and "
         "one-component siblings recur later in the history; the whole history is run three ways (as given; object calls "
         "re-ordered with all reports afterwards, every 8th time on a freshly loaded copy of the library; every call "
         "followed by reading everything readable and by editing what it returned) and the final deep observations "
@@ -37,6 +40,12 @@ TRUSTED = [
     "the model receives the samples the implementation returned)",
     "iteration order of set(dict keys) in PauliTerm.__iter__ is a CPython detail: model and implementation are compared "
     "up to the key order inside a term",
+    "Python's data model: with no in-place dunder defined (surveyed on the unchanged library: no class defines __iadd__, "
+    "__imul__, __itruediv__, __ipow__ ...; `x2 = x; x2 op= y; x2 is x` is False or a TypeError for every class and operand), "
+    "`x op= y`, functools.reduce(operator.op, [x, y]), sum([y], x), x.__op__(y) and pow(x, n) all evaluate x.__op__(y): the "
+    "model answers every such form with the same call; the only documented mutators are Wavefunction.__setitem__, "
+    "Measurements.add_counts and plain container operations on the public attributes (bitstrings, distribution_dict, terms), "
+    "which the histories apply to COPIES only",
     "re-executing the library's modules (importlib, sys.modules swapped and restored) yields a copy whose behaviour differs "
     "from the first copy only by module-level state accumulated since import",
 ]
@@ -45,7 +54,8 @@ ASSUMPTIONS = [
     "math.isclose(norm, 1) / np.isclose(p, 1) are modelled with their tolerances, and the generated sums stay away from the "
     "tolerance boundary (|norm-1| < 1e-10 or > 1e-6; |p-1| < 5e-6 or > 1e-4), so float rounding cannot flip them",
     "gate parameters are Python floats (dyadic) or plain sympy Symbols; bind maps send symbols to dyadic numbers",
-    "Python exceptions ValueError / RuntimeError / NotImplementedError / TypeError / IndexError count as a rejection of the "
+    "Python exceptions ValueError / RuntimeError / NotImplementedError / TypeError / IndexError / AssertionError (the library's "
+    "`assert isinstance(other, number)` operand checks in __radd__/__rmul__) count as a rejection of the "
     "call (the frame condition is still checked on that path); any other exception is reported",
     "a constructor (Circuit, PauliSum, Measurements, MeasurementOutcomeDistribution, Wavefunction) and Wavefunction.bind "
     "are not among the listed operations: their result may alias the argument exactly as the model says; the results of "
@@ -417,11 +427,67 @@ ARGK = {"lit_terms": None, "circ_new": ["oplist|list"], "circ_add": ["circuit", 
         "dist_new": ["ddict"], "dist_sub": ["dist"], "wf_new": ["arr|symvec"], "wf_bind": ["wf"],
         "meas_counts": ["meas"], "wf_probs": ["wf"]}
 REJECT = {NotImplementedError: "err:notimpl", ValueError: "err:value", RuntimeError: "err:runtime",
-          TypeError: "err:type", IndexError: "err:index"}  # order matters: NotImplementedError is a RuntimeError
+          TypeError: "err:type", IndexError: "err:index",
+          AssertionError: "err:assert"}  # order matters: NotImplementedError is a RuntimeError
+# (AssertionError: PauliSum.__radd__/__rmul__ and PauliTerm.__rmul__ check their operand with `assert isinstance(other, number)`,
+#  so `<Measurements> * <PauliSum>` is refused with an AssertionError instead of a TypeError on the unchanged library)
 
 
 class _BadRef(Exception):
     pass
+
+
+# ---- the syntactic forms a user has for one operation.  On the unchanged library NO class defines an in-place dunder
+# (__iadd__, __imul__, ... - surveyed with `x2 = x; x2 op= y; x2 is x`: always False or TypeError), so every augmented
+# assignment on a circuit / term / sum is Python's fallback `x = x op y`: value-returning, the object the name was bound to
+# before (here: the pool object, which stays in the pool as the alias taken BEFORE) must keep its old value.
+import functools
+import operator as _op
+
+_BIN = {"+": _op.add, "-": _op.sub, "*": _op.mul, "/": _op.truediv, "**": _op.pow, "@": _op.matmul}
+_AUG = {"+": _op.iadd, "-": _op.isub, "*": _op.imul, "/": _op.itruediv, "**": _op.ipow, "@": _op.imatmul}
+_DUNDER = {"+": "__add__", "-": "__sub__", "*": "__mul__", "/": "__truediv__", "**": "__pow__", "@": "__matmul__"}
+_RDUNDER = {"+": "__radd__", "-": "__rsub__", "*": "__rmul__"}
+FORMS = ("plain", "aug", "reduce", "sum", "dunder", "builtin", "right", "rdunder", "div", "idiv")
+
+
+def _binop(form, sym, x, y):
+    """x <sym> y written in the given form; x is the receiver (a live pool object = the alias taken before)"""
+    if form in (None, "plain"):
+        return _BIN[sym](x, y)
+    if form == "aug":        # x2 = x; x2 <sym>= y; the new binding of x2 is the result
+        x2 = x
+        x2 = _AUG[sym](x2, y)
+        return x2
+    if form == "reduce":     # functools.reduce(operator.<sym>, [x, y])
+        return functools.reduce(_BIN[sym], [x, y])
+    if form == "sum":        # sum([y], x)  (start value x)
+        assert sym == "+"
+        return sum([y], x)
+    if form == "builtin":    # pow(x, n)
+        assert sym == "**"
+        return pow(x, y)
+    if form in ("dunder", "rdunder"):   # the method called by name; NotImplemented is what the operator turns into a TypeError
+        r = getattr(x, (_DUNDER if form == "dunder" else _RDUNDER)[sym])(y)
+        if r is NotImplemented:
+            raise TypeError("NotImplemented")
+        return r
+    raise AssertionError(form)
+
+
+def _scale(form, x, c):
+    """x scaled by the number c, in the given form (c * x is the historical default of sum_rmul, x * c of term_scale)"""
+    if form == "left":
+        return c * x
+    if form == "right":
+        return x * c
+    if form == "div":        # x / (1/c): c is +-2^k, so 1/c and 1.0/(1/c) are exact
+        return x / (1.0 / c)
+    if form == "idiv":
+        x2 = x
+        x2 /= (1.0 / c)
+        return x2
+    return _binop(form, "*", x, c)
 
 
 def _inline(L, call):
@@ -439,7 +505,7 @@ def _inline(L, call):
         return {"counts": {"".join(str(b) for b in k): n for k, n in call["counts"]}}
     if op == "report" and call["kind"] == "distance":
         return {"params": {"epsilon": 1e-9, "sigma": 1.0}}
-    if op == "report" and call["kind"] == "gate_apply":
+    if op == "report" and call["kind"] in ("gate_apply", "cached_aug"):
         return {"gop": _gop_from_json(L, call["gop"])}
     return {}
 
@@ -480,10 +546,11 @@ def _apply(L, pool, call, inl, tmpdir, limit=None):
         return np.array([complex(_num(x[0]), _num(x[1])) for x in call["a"]], dtype=dt)
     if op == "circ_new":
         return C.Circuit(a[0], call.get("nq")) if call.get("nq") is not None else C.Circuit(a[0])
+    form = call.get("form")
     if op == "circ_add":
-        return a[0] + a[1]
+        return _binop(form, "+", a[0], a[1])
     if op == "circ_add_op":
-        return a[0] + inl["gop"]
+        return _binop(form, "+", a[0], inl["gop"])
     if op == "circ_bind":
         return a[0].bind(inl["map"])
     if op == "circ_inverse":
@@ -506,23 +573,23 @@ def _apply(L, pool, call, inl, tmpdir, limit=None):
     if op == "term_copy":
         return a[0].copy(_coef(call["coef"])) if call.get("coef") is not None else a[0].copy()
     if op == "term_mul":
-        return a[0] * a[1]
+        return _binop(form, "*", a[0], a[1])
     if op == "term_scale":
-        return a[0] * _coef(call["coef"]) if call.get("left") is None else _coef(call["coef"]) * a[0]
+        return _scale(form or ("right" if call.get("left") is None else "left"), a[0], _coef(call["coef"]))
     if op == "term_add":
-        return a[0] + a[1]
+        return _binop(form, "+", a[0], a[1])
     if op == "term_pow":
-        return a[0] ** call["n"]
+        return _binop(form, "**", a[0], call["n"])
     if op == "sum_new":
         return O.PauliSum(a[0])
     if op == "sum_add":
-        return a[0] + a[1]
+        return _binop(form, "+", a[0], a[1])
     if op == "sum_mul":
-        return a[0] * a[1]
+        return _binop(form, "*", a[0], a[1])
     if op == "sum_rmul":
-        return _coef(call["coef"]) * a[0]
+        return _scale(form or "left", a[0], _coef(call["coef"]))
     if op == "sum_pow":
-        return a[0] ** call["n"]
+        return _binop(form, "**", a[0], call["n"])
     if op == "sum_simplify":
         return a[0].simplify()
     if op == "op_conj":
@@ -624,6 +691,14 @@ def _report(L, kind, a, call, inl, tmpdir):
         return inl["gop"].apply(a[0])
     if kind == "amplitudes":
         return [complex(x) for x in a[0]]
+    if kind == "expr":
+        return _expr_report(L, a, call)
+    if kind == "proto":
+        return _proto_report(L, a, call)
+    if kind == "copy":
+        return _copy_report(L, a, call)
+    if kind == "cached_aug":
+        return _cached_aug_report(L, a, call, inl)
     if kind == "gate_ops":  # gates and gate operations (frozen dataclasses) under their own value-returning methods
         out = []
         for o in (a[0] if k0 != "circuit" else a[0].operations):
@@ -640,6 +715,138 @@ def _report(L, kind, a, call, inl, tmpdir):
             out.append(row)
         return out
     raise AssertionError(kind)
+
+
+def _expr_report(L, a, call):
+    """arithmetic / augmented forms outside the model (subtraction, reflected operators with numbers, builtin sum, @, every
+    augmented assignment on every kind of object).  The receiver a[0] is the alias taken before; the new object does not
+    join the pool.  Returned as plain data (a strict snapshot), so that nothing the library owns is handed to the editor."""
+    what = call["what"]
+    x = a[0]
+    y = a[1] if len(a) > 1 else (_coef(call["c"]) if "c" in call else call.get("n"))
+    if call.get("ctype") == "int":
+        y = int(y)
+    if what in ("+=", "-=", "*=", "/=", "**=", "@="):
+        r = _binop("aug", what[:-1], x, y)
+        return ["result-is-receiver" if r is x else "new", _rs(L, r, {})]
+    if what in ("-", "@", "+", "*", "/", "**"):
+        r = _BIN[what](x, y)
+    elif what in ("r+", "r-", "r*", "r/", "r@"):      # number <op> x
+        r = _BIN[what[1:]](y, x)
+    elif what == "sum":                                  # sum([x, y]) = ((0 + x) + y)
+        r = sum([x, y] if len(a) > 1 else [x, x])
+    elif what == "neg":
+        r = -x
+    elif what == "pos":
+        r = +x
+    elif what == "abs":
+        r = abs(x)
+    else:
+        raise AssertionError(what)
+    return ["result-is-receiver" if r is x else "new", _rs(L, r, {})]
+
+
+def _proto_report(L, a, call):
+    """the read-only protocol forms: comparison operators, hash, len, iteration, membership, indexing, truth value"""
+    what = call["what"]
+    x = a[0]
+    if what == "hash":
+        if type(x).__hash__ is object.__hash__:
+            hash(x)
+            return "identity-hash"
+        return [hash(x), hash(x) == hash(x)]
+    if what == "len":
+        return len(x)
+    if what == "iter":
+        return _rs(L, [y for y in x], {})
+    if what == "iter2":   # two interleaved iterators over the same object
+        i1, i2 = iter(x), iter(x)
+        out = []
+        for y in i1:
+            out.append(_rs(L, y, {}))
+            out.append(_rs(L, next(i2, None), {}))
+        return out
+    if what == "bool":
+        return bool(x)
+    if what == "contains":
+        return bool(a[1] in x)
+    if what == "getitem":
+        i = call["i"]
+        return _rs(L, x[slice(*i)] if isinstance(i, list) else x[i], {})
+    if what == "ne":
+        return bool(x != a[1])
+    if what == "eq":
+        return [bool(x == a[1]), bool(a[1] == x)]
+    if what == "eq_num":
+        c = _coef(call["c"])
+        return [bool(x == c), bool(c == x), bool(x != c)]
+    if what in ("lt", "le", "gt", "ge"):
+        return bool(getattr(_op, what)(x, a[1]))
+    raise AssertionError(what)
+
+
+def _copy_report(L, a, call):
+    """copy.copy / copy.deepcopy / a pickle round trip of a pool object, followed by edits of the COPY: a shallow copy is only
+    re-bound at its public attributes (its containers are shared with the original by definition), a deep copy / unpickled
+    object is edited through its public containers as well.  The original is watched by the whole-pool snapshot."""
+    import copy
+    import pickle
+    how = call["how"]
+    x = a[0]
+    if how == "copy":
+        cp = copy.copy(x)
+    elif how == "deepcopy":
+        cp = copy.deepcopy(x)
+    else:
+        try:
+            cp = pickle.loads(pickle.dumps(x))
+        except (pickle.PicklingError, AttributeError, TypeError):
+            # (on the freshly re-executed copy of the library the classes are not the ones importable by name: pickle
+            #  refuses them; the deep copy takes the same __reduce_ex__ route)
+            cp = copy.deepcopy(x)
+    first = [cp is x, _rs(L, cp, {})]
+    k = _kind(L, cp)
+    if cp is x:
+        return first
+    if how == "copy":   # re-binding only
+        if k == "term":
+            cp.coefficient = 12345.0
+        elif k == "sum":
+            cp.terms = []
+        elif k == "meas":
+            cp.bitstrings = [(7,)]
+        elif k == "dist":
+            cp.distribution_dict = {(7,): 1.0}
+    else:
+        _poison_object(L, cp)
+        if k == "sum":
+            for t in cp.terms:
+                t.coefficient = -777.0
+        elif k == "wf" and isinstance(cp._amplitude_vector, L.np.ndarray):
+            cp.amplitudes[...] = 0
+        elif k in ("arr",):
+            cp[...] = 0
+        elif k in ("ddict",):
+            cp.clear()
+        elif isinstance(cp, list):
+            cp.append("<edited>")
+    return first
+
+
+def _cached_aug_report(L, a, call, inl):
+    """an object cached INSIDE another object as the receiver of an augmented assignment: m = term.circuit (or
+    sum.circuits[i]); alias = m; m += Circuit([gate]) (or += gate).  The alias - the object the operator holds - must still
+    show the old circuit, and the operator must convert to the same circuit as before."""
+    x = a[0]
+    k0 = _kind(L, x)
+    m = x.circuit if k0 == "term" else x.circuits[call.get("i", 0)]
+    alias = m
+    before = _strict(L, alias, {})
+    other = L.circuits.Circuit([inl["gop"]]) if call.get("operand", "circuit") == "circuit" else inl["gop"]
+    m = _binop(call.get("form", "aug"), "+", m, other)
+    after = _strict(L, alias, {})
+    again = x.circuit if k0 == "term" else x.circuits[call.get("i", 0)]
+    return {"alias_before": before, "alias_after": after, "result": _strict(L, m, {}), "converted_again": _strict(L, again, {})}
 
 
 def _diff(before, after):
@@ -707,7 +914,22 @@ def _guard(f):
         return f"exc:{type(e).__name__}: {e}"[:120]
 
 
+def _protocol_obs(L, o):
+    """the read-only protocol of an object: hash (when it is value based), truth value, len, iteration, == with itself"""
+    G = _guard
+    return [G(lambda: hash(o) if type(o).__hash__ is not object.__hash__ else "identity-hash"), G(lambda: bool(o)),
+            G(lambda: len(o)), G(lambda: _rs(L, [y for y in o], {})), G(lambda: [bool(o == o), bool(o != o)]),
+            G(lambda: _rs(L, o[0], {}))]
+
+
 def _deep(L, o, ids):
+    d = _deep_(L, o, ids)
+    if d is not None and _kind(L, o) in ("circuit", "term", "sum", "meas", "dist", "wf"):
+        d.append(_protocol_obs(L, o))
+    return d
+
+
+def _deep_(L, o, ids):
     """everything the argument-free public readers of an object return (conversions included).  Reading it is itself a
     sequence of value-returning calls, so it may be taken at any time without changing any later observation."""
     k = _kind(L, o)
@@ -906,7 +1128,7 @@ def _run_eager(L, calls, tmpdir, edit=True):
         inl = _inline(L, call)
         res, _ = _exec(L, pool, call, inl, tmpdir)
         if call["op"] in OBJECT_OPS:
-            if edit and call["op"] in NEW_OBJECT_OPS and res[0] == "ok" and not any(res[1] is x for x in pool):
+            if edit and call["op"] in NEW_OBJECT_OPS and res[0] == "ok":
                 # the caller edits the new object; the arguments must not change with it and the same call must still
                 # give what it gave before (it is the SECOND, untouched result that stays in the pool)
                 ids0 = _ids_upto(pool, n0)
@@ -1038,6 +1260,10 @@ def _run_impl(case):
                     rec["res"] = {"report": common.canon(s1)[:400]}
             else:
                 rec["res"] = r1
+            if t1 == "ok" and isinstance(r1, dict) and "alias_before" in r1:
+                if r1["alias_before"] != r1["alias_after"] or r1["alias_before"] != r1["converted_again"]:
+                    rec["alias"] = _first_diff(r1["alias_before"], r1["alias_after"] if r1["alias_before"] != r1["alias_after"]
+                                               else r1["converted_again"])
             if op not in OBJECT_OPS:
                 a_reports[ci] = s1
             # an identical call made earlier in the history (same pool arguments, same inline values)
@@ -1112,10 +1338,16 @@ def requests(case, out):
         return []  # symbolic wavefunctions are outside the model: oracle only
     calls = []
     for call, st in zip(case["calls"], out["steps"]):
-        c = {k: v for k, v in call.items() if k not in ("seed", "left", "measure", "bessel")}   # (outside the model)
+        # (outside the model; "form": every syntactic form of an operation is the same model call - Python evaluates
+        #  `x op= y`, reduce, sum(.., start), the dunder by name and pow() through the same __add__/__mul__/__pow__/__rmul__)
+        c = {k: v for k, v in call.items() if k not in ("seed", "left", "measure", "bessel", "form")}
         if call["op"] == "meas_representing":
             res = st.get("res")
             c["samples"] = res["obj"]["bs"] if isinstance(res, dict) and res.get("obj") else []
+            if res == "err:value":
+                # the sampling correction refused (its leftover distribution was all zero): like the draws themselves this is
+                # external to the model, which is told that no object was created (a dangling reference does that)
+                c["args"] = [10 ** 6]
         if call["op"] == "report":
             c = {"op": "report", "kind": call["kind"], "args": call.get("args", [])}
         if call["op"] == "lit_dict":   # the model's dicts are keyed by outcomes, however the caller wrote them
@@ -1144,6 +1376,8 @@ def compare(case, out, resp):
             continue
         if isinstance(got, str) and got.startswith("exc:"):
             return f"step {i} {st['op']}: implementation raised {got}, model {common.canon(want)[:200]}"
+        if call["op"] == "meas_representing" and got == "err:value" and want == "err:badref":
+            continue
         if isinstance(got, dict) and "obj" in got and isinstance(got["obj"], dict) and got["obj"].get("k") == "list":
             # an empty python list: compare as the kind the model chose
             if isinstance(want, dict) and "obj" in want and not any(want["obj"].get(f) for f in ("ops", "ts", "bs")):
@@ -1187,6 +1421,10 @@ def oracle(case, out):
                     f"after {common.canon(ch['after'])[:240]}")
         if "inline_changed" in st:
             return ("mutates-inline:" + op, f"call {i} ({op}) modified its inline argument: {st['inline_changed']}")
+        if "alias" in st:
+            return ("alias-changed:" + op, f"call {i} ({op}, args {case['calls'][i].get('args', [])}, {case['calls'][i]}): the object held "
+                    f"under another name BEFORE the augmented assignment (the circuit cached inside the operator) no longer "
+                    f"shows its old value {st['alias']}")
         if "twice" in st:
             return ("unrepeatable:" + op, f"call {i} ({op}) made twice on the same arguments gave different results: "
                     f"{st['twice']}")
@@ -1243,7 +1481,8 @@ def distribution(cases, outs):
     feat = {"repeated_identical_calls": 0, "dist_sub_negative_index": 0, "dict_string_keys": 0, "dict_nonbinary_outcomes": 0,
             "dict_inexact_sum": 0, "amplitudes_inexact_norm": 0, "amplitudes_real_or_single_dtype": 0,
             "term_int_or_complex_coef": 0, "term_from_string_or_iterable": 0, "oplist_width_ge_9": 0,
-            "symbolic_wavefunctions": 0}
+            "symbolic_wavefunctions": 0, "model_ops_in_another_form": 0, "augmented_assignments": 0,
+            "arithmetic_forms_outside_model": 0, "protocol_reads": 0, "copy_roundtrips_edited": 0, "augmented_on_cached_circuit": 0}
     for c, o in zip(cases, outs):
         if "calls" not in c:
             continue
@@ -1254,6 +1493,17 @@ def distribution(cases, outs):
             if op not in LITERALS:
                 feat["repeated_identical_calls"] += k in seen
                 seen.add(k)
+            if call.get("form") and op != "report":
+                feat["model_ops_in_another_form"] += 1
+                feat["augmented_assignments"] += call["form"] in ("aug", "idiv")
+            if op == "report" and call["kind"] == "expr":
+                feat["augmented_assignments" if call["what"].endswith("=") else "arithmetic_forms_outside_model"] += 1
+            elif op == "report" and call["kind"] == "proto":
+                feat["protocol_reads"] += 1
+            elif op == "report" and call["kind"] == "copy":
+                feat["copy_roundtrips_edited"] += 1
+            elif op == "report" and call["kind"] == "cached_aug":
+                feat["augmented_on_cached_circuit"] += 1
             if op == "dist_sub":
                 feat["dist_sub_negative_index"] += any(q < 0 for q in call["qubits"])
             elif op == "lit_dict":
@@ -1378,6 +1628,46 @@ def corpus():
             {"op": "wf_new", "args": [2]}, {"op": "report", "kind": "sample", "args": [3], "n": 3, "seed": 1},
             {"op": "wf_probs", "args": [3]}, {"op": "report", "kind": "flip", "args": [3]}, {"op": "report", "kind": "eq", "args": [1, 1]},
             {"op": "report", "kind": "save", "args": [1]}, {"op": "wf_probs", "args": [1]}]},
+        # every way of writing a composition / product / power: augmented assignment on an alias, reduce, sum(.., start), the
+        # dunder by name, pow(); an augmented assignment on the circuit cached inside a term / sum; subtraction, reflected
+        # operators, comparisons, hash / len / iteration / indexing, copies that are then edited
+        {"kind": "circuit", "calls": [
+            {"op": "lit_ops", "ops": [X0, CN]}, {"op": "circ_new", "args": [0]}, {"op": "lit_ops", "ops": [T1]},
+            {"op": "circ_new", "args": [2]}, {"op": "circ_add", "args": [1, 3], "form": "aug"},
+            {"op": "circ_add", "args": [1, 3]}, {"op": "circ_add", "args": [1, 3], "form": "reduce"},
+            {"op": "circ_add", "args": [1, 3], "form": "sum"}, {"op": "circ_add_op", "args": [1], "gop": PW, "form": "aug"},
+            {"op": "lit_ops", "ops": []}, {"op": "circ_new", "args": [9]}, {"op": "circ_add", "args": [1, 10]},
+            {"op": "circ_add", "args": [1, 10], "form": "aug"}, {"op": "circ_inverse", "args": [1]}, {"op": "circ_inverse", "args": [1]},
+            {"op": "report", "kind": "expr", "what": "*=", "args": [1], "c": [2, 0]},
+            {"op": "report", "kind": "proto", "what": "eq", "args": [4, 5]}, {"op": "report", "kind": "proto", "what": "hash", "args": [1]},
+            {"op": "report", "kind": "copy", "how": "deepcopy", "args": [1]}, {"op": "report", "kind": "copy", "how": "copy", "args": [1]},
+            {"op": "report", "kind": "copy", "how": "pickle", "args": [4]}]},
+        {"kind": "pauli", "calls": [
+            {"op": "term_new", "ops": [[0, "X"], [1, "Z"]], "coef": [2, 0]}, {"op": "term_new", "ops": [[1, "Y"]], "coef": [0, 1]},
+            {"op": "report", "kind": "cached_aug", "args": [0], "gop": X0, "operand": "circuit", "form": "aug"},
+            {"op": "report", "kind": "cached_aug", "args": [0], "gop": X0, "operand": "gate", "form": "aug"},
+            {"op": "term_add", "args": [0, 1], "form": "aug"}, {"op": "term_mul", "args": [0, 1], "form": "aug"},
+            {"op": "term_scale", "args": [0], "coef": ["1/2", 0], "form": "aug"}, {"op": "term_scale", "args": [0], "coef": ["1/2", 0], "form": "idiv"},
+            {"op": "term_pow", "args": [0], "n": 2, "form": "aug"}, {"op": "sum_add", "args": [2, 1], "form": "aug"},
+            {"op": "sum_mul", "args": [2, 2], "form": "aug"}, {"op": "sum_rmul", "args": [2], "coef": [3, 0], "form": "aug"},
+            {"op": "sum_rmul", "args": [2], "coef": [2, 0], "form": "idiv"}, {"op": "sum_pow", "args": [2], "n": 2, "form": "builtin"},
+            {"op": "report", "kind": "cached_aug", "args": [2], "gop": X0, "i": 1, "operand": "circuit", "form": "aug"},
+            {"op": "report", "kind": "expr", "what": "-=", "args": [2, 0]}, {"op": "report", "kind": "expr", "what": "r-", "args": [2], "c": [1, 0], "ctype": "int"},
+            {"op": "report", "kind": "expr", "what": "sum", "args": [0, 1]}, {"op": "report", "kind": "expr", "what": "-", "args": [0, 1]},
+            {"op": "report", "kind": "proto", "what": "hash", "args": [2]}, {"op": "report", "kind": "proto", "what": "iter2", "args": [2]},
+            {"op": "report", "kind": "proto", "what": "getitem", "args": [2], "i": [None, None, -1]},
+            {"op": "report", "kind": "proto", "what": "contains", "args": [2, 0]}, {"op": "report", "kind": "proto", "what": "eq_num", "args": [0], "c": [2, 0]},
+            {"op": "report", "kind": "copy", "how": "deepcopy", "args": [2]}, {"op": "report", "kind": "copy", "how": "pickle", "args": [2]},
+            {"op": "report", "kind": "copy", "how": "copy", "args": [2]}, {"op": "report", "kind": "op_circuits", "args": [0]}]},
+        {"kind": "dist", "calls": [
+            {"op": "lit_dict", "d": [[[0, 1], 1], [[1, 1], 3]]}, {"op": "dist_new", "args": [0], "normalize": False},
+            {"op": "lit_dict", "d": [[[0, 0], 2], [[1, 1], 2]]}, {"op": "dist_new", "args": [2], "normalize": False},
+            {"op": "report", "kind": "proto", "what": "eq", "args": [1, 3]}, {"op": "report", "kind": "proto", "what": "ne", "args": [1, 1]},
+            {"op": "report", "kind": "distance", "measure": "cnll", "args": [1, 3]}, {"op": "report", "kind": "distance", "measure": "jsd", "args": [3, 1]},
+            {"op": "report", "kind": "expr", "what": "+=", "args": [1, 3]}, {"op": "meas_representing", "args": [1], "n": 4, "seed": 2},
+            {"op": "lit_bits", "bits": [[0, 1], [1, 1]]}, {"op": "meas_new", "args": [5]},
+            {"op": "report", "kind": "expr", "what": "+=", "args": [6, 6]}, {"op": "report", "kind": "proto", "what": "eq", "args": [6, 4]},
+            {"op": "report", "kind": "copy", "how": "deepcopy", "args": [6]}, {"op": "report", "kind": "copy", "how": "deepcopy", "args": [1]}]},
         # a symbolic wavefunction (sympy Matrix inside): probabilities, partial and full binding (oracle only)
         {"kind": "wfsym", "calls": [
             {"op": "lit_symvec", "exprs": ["1/2", "1/2", "sqrt(2)*cos(phi)/2", "sqrt(2)*sin(phi)/2"]}, {"op": "wf_new", "args": [0]},
@@ -1424,6 +1714,99 @@ class _Gen:
             return len(self.meta) - 1
         return None
 
+    # -- syntactic forms
+    FORM_CHOICES = {"circ_add": ["aug", "aug", "aug", "reduce", "sum", "dunder"], "circ_add_op": ["aug", "aug", "dunder"],
+                    "term_mul": ["aug", "aug", "reduce", "dunder"], "term_add": ["aug", "aug", "reduce", "sum", "dunder"],
+                    "sum_add": ["aug", "aug", "reduce", "sum", "dunder"], "sum_mul": ["aug", "aug", "reduce", "dunder"],
+                    "term_pow": ["aug", "aug", "builtin", "dunder"], "sum_pow": ["aug", "aug", "builtin", "dunder"],
+                    "term_scale": ["aug", "aug", "dunder", "rdunder", "div", "idiv", "left", "right"],
+                    "sum_rmul": ["aug", "aug", "dunder", "rdunder", "div", "idiv", "right", "left"]}
+
+    def form(self, op, p=0.6):
+        """the way the user writes the operation: `a + b`, `a += b` on an alias, reduce, sum(.., start), the dunder by name ..."""
+        if self.rng.random() >= p:
+            return {}
+        return {"form": self.rng.choice(self.FORM_CHOICES[op])}
+
+    def pow2(self):
+        return [rat(self.rng.choice([-1, 1]) * Fraction(2) ** self.rng.randrange(-2, 3)), 0]
+
+    AUGS = ["+=", "-=", "*=", "/=", "**=", "@="]
+    LIBKINDS = ("circuit", "term", "sum", "meas", "dist", "wf")
+
+    def forms_call(self):
+        """operator / protocol forms outside the model, on ANY live library object (the object stays in the pool as the alias
+        taken before): augmented assignments, subtraction, reflected operators, builtin sum, comparisons, hash, len, iteration,
+        membership, indexing, truth value, copy / deepcopy / pickle followed by edits of the copy, and an augmented assignment
+        on the circuit cached inside an operator"""
+        rng, E = self.rng, self.emit
+        cand = [i for i, m in enumerate(self.meta) if m and m["k"] in self.LIBKINDS]
+        if not cand:
+            return False
+        k = rng.choice(sorted({self.meta[i]["k"] for i in cand}))   # the kind first: every kind present gets its share
+        same = [i for i in cand if self.meta[i]["k"] == k]
+        x = rng.choice(same)
+        mx = self.meta[x]
+        y = rng.choice(same) if rng.random() < 0.7 else rng.choice(cand)
+        my = self.meta[y]
+        small = lambda m: m.get("nt", 1) <= 4
+        choice = rng.choice(["aug_obj", "aug_obj", "aug_num", "binary", "reflected", "sum", "unary", "proto", "proto", "cmp",
+                             "copy", "copy", "cached_aug", "cached_aug"])
+        if choice == "aug_obj":
+            what = rng.choice(self.AUGS[:3] + self.AUGS[:1] + ["@="])
+            if what == "*=" and not (small(mx) and small(my)):
+                return False
+            E({"op": "report", "kind": "expr", "what": what, "args": [x, y]}, None)
+        elif choice == "aug_num":
+            what = rng.choice(self.AUGS[:5])
+            if what == "**=":
+                if not small(mx) or mx.get("nt", 1) ** 3 > 30:
+                    return False
+                E({"op": "report", "kind": "expr", "what": what, "args": [x], "n": rng.randrange(0, 4)}, None)
+            else:
+                c = [rat(_dy(rng)), rat(_dy(rng, nonzero=False)) if rng.random() < 0.3 else 0]
+                E({"op": "report", "kind": "expr", "what": what, "args": [x], "c": c,
+                   **({"ctype": "int"} if c[1] == 0 and Fraction(c[0]).denominator == 1 and rng.random() < 0.5 else {})}, None)
+        elif choice == "binary":
+            what = rng.choice(["-", "-", "@", "/"])
+            if what == "/":
+                E({"op": "report", "kind": "expr", "what": "/", "args": [x], "c": [rat(_dy(rng)), 0]}, None)
+            else:
+                E({"op": "report", "kind": "expr", "what": what, "args": [x, y]}, None)
+        elif choice == "reflected":
+            c = [rat(_dy(rng, nonzero=False)), rat(_dy(rng, nonzero=False)) if rng.random() < 0.3 else 0]
+            E({"op": "report", "kind": "expr", "what": rng.choice(["r+", "r-", "r*", "r-", "r/"]), "args": [x], "c": c,
+               **({"ctype": "int"} if c[1] == 0 and Fraction(c[0]).denominator == 1 and rng.random() < 0.5 else {})}, None)
+        elif choice == "sum":
+            E({"op": "report", "kind": "expr", "what": "sum", "args": [x, y]}, None)
+        elif choice == "unary":
+            E({"op": "report", "kind": "expr", "what": rng.choice(["neg", "pos", "abs"]), "args": [x]}, None)
+        elif choice == "proto":
+            what = rng.choice(["hash", "len", "iter", "iter2", "bool", "contains", "getitem", "getitem"])
+            call = {"op": "report", "kind": "proto", "what": what, "args": [x]}
+            if what == "contains":
+                call["args"] = [x, rng.choice(cand)]
+            if what == "getitem":
+                call["i"] = rng.choice([0, -1, 1, 7, -9, [0, 1], [None, None, -1], [1, None]])
+            E(call, None)
+        elif choice == "cmp":
+            what = rng.choice(["ne", "eq", "eq_num", "lt", "ge"])
+            call = {"op": "report", "kind": "proto", "what": what, "args": [x, y]}
+            if what == "eq_num":
+                call = {"op": "report", "kind": "proto", "what": what, "args": [x], "c": [rat(_dy(rng, nonzero=False)), 0]}
+            E(call, None)
+        elif choice == "copy":
+            E({"op": "report", "kind": "copy", "how": rng.choice(["copy", "deepcopy", "deepcopy", "pickle"]), "args": [x]}, None)
+        else:
+            ops = [i for i in cand if self.meta[i]["k"] in ("term", "sum") and self.meta[i].get("nt", 1) > 0]
+            if not ops:
+                return False
+            x = rng.choice(ops)
+            o, _, _ = self.gop(maxq=3, allow_sym=False)
+            E({"op": "report", "kind": "cached_aug", "args": [x], "gop": o, "i": 0 if rng.random() < 0.8 else 1,
+               "operand": rng.choice(["circuit", "circuit", "gate"]), "form": rng.choice(["aug", "aug", "aug", "plain", "sum"])}, None)
+        return True
+
     # -- the same call again later in the history / a sibling that differs in exactly one component
     def again(self):
         if not self.log:
@@ -1440,7 +1823,14 @@ class _Gen:
         c = json.loads(json.dumps(call))
         op, args = c["op"], c.get("args", [])
         cf = [rat(_dy(rng)), rat(_dy(rng, nonzero=False)) if rng.random() < 0.3 else 0]
-        if op == "dist_sub" and meta is not None:
+        if op in self.FORM_CHOICES and rng.random() < 0.6:
+            f = rng.choice(self.FORM_CHOICES[op])
+            if f in ("div", "idiv"):
+                c["coef"] = self.pow2()
+            if op == "term_scale":
+                c.pop("left", None)
+            c["form"] = f   # the same operation on the same arguments, written differently
+        elif op == "dist_sub" and meta is not None:
             w = self.meta[args[0]]["w"]
             qs = list(c["qubits"])
             if rng.random() < 0.5:
@@ -1576,6 +1966,9 @@ class _Gen:
     def lit_dict(self, malformed=False):
         rng = self.rng
         w = rng.choice([1, 2, 3])
+        have = [m["w"] for m in self.meta if m and m["k"] == "dist"]
+        if have and rng.random() < 0.6:
+            w = rng.choice(have)   # another distribution on a register that is already there (to be compared with it)
         nb = rng.random() < 0.12   # outcomes that are not bits (multi-digit entries)
         if nb:
             keys = []
@@ -1680,12 +2073,12 @@ class _Gen:
         if choice == "add":
             d = self.pick("circuit")
             md = self.meta[d]
-            E({"op": "circ_add", "args": [c, d]}, {"k": "circuit", "n": m["n"] + md["n"], "sym": m["sym"] or md["sym"],
+            E({"op": "circ_add", "args": [c, d], **self.form("circ_add")}, {"k": "circuit", "n": m["n"] + md["n"], "sym": m["sym"] or md["sym"],
                                                     "heavy": m["heavy"] or md["heavy"], "nq": max(m["nq"], md["nq"]),
                                                     "noeval": m.get("noeval") or md.get("noeval")})
         elif choice == "add_op":
             o, s, hv = self.gop()
-            E({"op": "circ_add_op", "args": [c], "gop": o}, {"k": "circuit", "n": m["n"] + 1, "sym": m["sym"] or s,
+            E({"op": "circ_add_op", "args": [c], "gop": o, **self.form("circ_add_op")}, {"k": "circuit", "n": m["n"] + 1, "sym": m["sym"] or s,
                                                              "heavy": m["heavy"] or hv, "nq": max(m["nq"], max(o["q"]) + 1),
                                                              "noeval": m.get("noeval")})
         elif choice == "bind":
@@ -1731,20 +2124,23 @@ class _Gen:
             E({"op": "term_copy", "args": [t], **({"coef": cf} if newc else {})}, {**mt, **({"ib": 2, "fb": 2} if newc else {})})
         elif choice == "tmul":
             u = self.pick("term")
-            E({"op": "term_mul", "args": [t, u]}, {"k": "term", "nq": max(mt["nq"], self.meta[u]["nq"]), "nt": 1,
+            E({"op": "term_mul", "args": [t, u], **self.form("term_mul")}, {"k": "term", "nq": max(mt["nq"], self.meta[u]["nq"]), "nt": 1,
                                                    "ising": mt["ising"] and self.meta[u]["ising"],
                                                    "ib": mt["ib"] + self.meta[u]["ib"] + 1, "fb": mt["fb"] + self.meta[u]["fb"]})
         elif choice == "scale":
-            E({"op": "term_scale", "args": [t], "coef": cf, **({"left": 1} if rng.random() < 0.5 else {})},
+            fm = self.form("term_scale", 0.45)
+            if fm.get("form") in ("div", "idiv"):
+                cf = self.pow2()
+            E({"op": "term_scale", "args": [t], "coef": cf, **(fm or ({"left": 1} if rng.random() < 0.5 else {}))},
               {**mt, "ib": mt["ib"] + 3, "fb": mt["fb"] + 2})
         elif choice == "tadd":
             u = self.pick("term")
-            E({"op": "term_add", "args": [t, u]}, {"k": "sum", "nq": max(mt["nq"], self.meta[u]["nq"]), "nt": 2,
+            E({"op": "term_add", "args": [t, u], **self.form("term_add")}, {"k": "sum", "nq": max(mt["nq"], self.meta[u]["nq"]), "nt": 2,
                                                    "ising": mt["ising"] and self.meta[u]["ising"],
                                                    "ib": max(mt["ib"], self.meta[u]["ib"]) + 1, "fb": max(mt["fb"], self.meta[u]["fb"])})
         elif choice == "tpow":
             n = rng.randrange(0, 5)
-            E({"op": "term_pow", "args": [t], "n": n}, {**mt, "ib": max(1, n * (mt["ib"] + 1)), "fb": n * mt["fb"]})
+            E({"op": "term_pow", "args": [t], "n": n, **self.form("term_pow")}, {**mt, "ib": max(1, n * (mt["ib"] + 1)), "fb": n * mt["fb"]})
         elif choice == "tconj":
             E({"op": "op_conj", "args": [t]}, dict(mt))
         elif choice == "lit_terms":
@@ -1760,25 +2156,28 @@ class _Gen:
             o = self.pick("sum") if rng.random() < 0.6 else t
             mo = self.meta[o]
             if choice == "sadd":
-                E({"op": "sum_add", "args": [s, o]}, {"k": "sum", "nq": max(ms["nq"], mo["nq"]), "nt": ms["nt"] + mo["nt"],
+                E({"op": "sum_add", "args": [s, o], **self.form("sum_add")}, {"k": "sum", "nq": max(ms["nq"], mo["nq"]), "nt": ms["nt"] + mo["nt"],
                                                       "ising": ms["ising"] and mo["ising"],
                                                       "ib": max(ms["ib"], mo["ib"]) + _lg(ms["nt"] + mo["nt"]),
                                                       "fb": max(ms["fb"], mo["fb"])})
             elif choice == "smul":
                 if ms["nt"] * mo["nt"] > 20:
                     return False
-                E({"op": "sum_mul", "args": [s, o]}, {"k": "sum", "nq": max(ms["nq"], mo["nq"]), "nt": ms["nt"] * mo["nt"],
+                E({"op": "sum_mul", "args": [s, o], **self.form("sum_mul")}, {"k": "sum", "nq": max(ms["nq"], mo["nq"]), "nt": ms["nt"] * mo["nt"],
                                                       "ising": ms["ising"] and mo["ising"],
                                                       "ib": ms["ib"] + mo["ib"] + 1 + _lg(ms["nt"] * mo["nt"]),
                                                       "fb": ms["fb"] + mo["fb"]})
             elif choice == "rmul":
-                E({"op": "sum_rmul", "args": [s], "coef": cf}, {**ms, "ib": ms["ib"] + 3 + _lg(ms["nt"]), "fb": ms["fb"] + 2})
+                fm = self.form("sum_rmul")
+                if fm.get("form") in ("div", "idiv"):
+                    cf = self.pow2()
+                E({"op": "sum_rmul", "args": [s], "coef": cf, **fm}, {**ms, "ib": ms["ib"] + 3 + _lg(ms["nt"]), "fb": ms["fb"] + 2})
             elif choice == "spow":
                 n = rng.randrange(0, 4)
                 if max(ms["nt"], 1) ** n > 20:
                     return False
                 nt = max(ms["nt"], 1)
-                E({"op": "sum_pow", "args": [s], "n": n}, {**ms, "nt": nt ** n, "fb": n * ms["fb"],
+                E({"op": "sum_pow", "args": [s], "n": n, **self.form("sum_pow")}, {**ms, "nt": nt ** n, "fb": n * ms["fb"],
                                                           "ib": max(1, n * (ms["ib"] + 1 + _lg(nt ** n)))})
             elif choice == "simplify":
                 E({"op": "sum_simplify", "args": [s]}, {**ms, "ib": ms["ib"] + _lg(ms["nt"])})
@@ -1806,7 +2205,7 @@ class _Gen:
         rng, E = self.rng, self.emit
         m = self.pick("meas")
         choice = rng.choice(["new", "from_counts", "counts", "distribution", "expect", "parities", "save", "representing",
-                             "counts", "expect", "distribution"])
+                             "counts", "expect", "distribution", "representing", "from_counts"])
         if m is None or choice == "new":
             l = self.pick("bitlist")
             if l is None or rng.random() < 0.5:
@@ -1814,16 +2213,20 @@ class _Gen:
             E({"op": "meas_new", "args": [l]}, {"k": "meas", "w": self.meta[l]["w"], "n": self.meta[l]["n"]})
             return True
         mm = self.meta[m]
+        if rng.random() < 0.08:   # comparison operators between measurement sets
+            E({"op": "report", "kind": "proto", "what": rng.choice(["eq", "ne", "hash"]), "args": [m, self.pick("meas")]}, None)
+            return True
         if choice == "from_counts":
             w = rng.choice([1, 2, 3])
             keys = rng.sample([[(i >> b) & 1 for b in range(w)] for i in range(2 ** w)], rng.randrange(0, min(2 ** w, 4) + 1))
-            cnt = [[k, rng.randrange(0, 4)] for k in keys]
+            big = rng.random() < 0.4   # e.g. 1 / 6 / 15 of 22 shots: frequencies whose float sum is 1 only up to rounding
+            cnt = [[k, rng.randrange(0, 16 if big else 4)] for k in keys]
             E({"op": "meas_from_counts", "counts": cnt}, {"k": "meas", "w": w, "n": sum(c[1] for c in cnt)})
         elif choice == "counts":
             E({"op": "meas_counts", "args": [m]}, None)
         elif choice == "distribution":
             E({"op": "meas_distribution", "args": [m]},
-              {"k": "dist", "w": mm["w"], "normalized": True} if mm["n"] > 0 else None)
+              {"k": "dist", "w": mm["w"], "normalized": True, "src": -1 - m} if mm["n"] > 0 else None)
         elif choice in ("expect", "parities"):
             if mm["n"] == 0:
                 return False
@@ -1840,7 +2243,7 @@ class _Gen:
         elif choice == "save":
             E({"op": "report", "kind": "save", "args": [m]}, None)
         elif choice == "representing":
-            d = self.pick("dist", lambda x: x.get("normalized") and not x.get("nb"))
+            d = self.pick("dist", lambda x: not x.get("nb"))
             if d is None:
                 return False
             E({"op": "meas_representing", "args": [d], "n": rng.randrange(1, 12), "seed": rng.randrange(2 ** 31)},
@@ -1851,7 +2254,7 @@ class _Gen:
         rng, E = self.rng, self.emit
         d = self.pick("dist")
         choice = rng.choice(["new", "new", "sub", "sub", "distance", "save", "n_subsystems", "str", "representing", "sub",
-                             "distance", "distance", "representing"])
+                             "distance", "distance", "representing", "cmp", "cmp"])
         if d is None or choice == "new":
             l = self.pick("ddict")
             if l is None or rng.random() < 0.5:
@@ -1860,10 +2263,14 @@ class _Gen:
             nrm = rng.random() < 0.7
             ok = ml["ok"] and not (ml["sum"] == 0 and nrm)
             E({"op": "dist_new", "args": [l], "normalize": nrm},
-              {"k": "dist", "w": ml["w"], "normalized": nrm or abs(ml["sum"] - 1) < Fraction(1, 10 ** 10), "nb": ml.get("nb")}
-              if ok else None)
+              {"k": "dist", "w": ml["w"], "normalized": nrm or abs(ml["sum"] - 1) < Fraction(1, 10 ** 10), "nb": ml.get("nb"),
+               "src": l} if ok else None)
             return True
         md = self.meta[d]
+        if choice == "cmp":   # comparison operators between distributions (== / != / hash)
+            e = self.pick("dist")
+            E({"op": "report", "kind": "proto", "what": rng.choice(["eq", "ne", "eq", "hash"]), "args": [d, e]}, None)
+            return True
         if choice == "sub":
             w = md["w"]
             qs = rng.sample(range(w), rng.randrange(1, w + 1))
@@ -1873,14 +2280,21 @@ class _Gen:
                 qs = rng.choice([[], qs + [qs[0]], qs + [w], [w + 1], [-w - 1], qs + [-w - 2], qs + [qs[0] - w if qs[0] >= 0 else qs[0] + w]])
             ok = len(qs) > 0 and len(set(qs)) == len(qs) and max(qs) < w and min(qs) >= -w
             E({"op": "dist_sub", "args": [d], "qubits": qs},
-              {"k": "dist", "w": len(qs), "normalized": md["normalized"], "nb": md.get("nb")} if ok else None)
+              {"k": "dist", "w": len(qs), "normalized": md["normalized"], "nb": md.get("nb"), "src": md.get("src")} if ok else None)
         elif choice == "distance":
             e = self.pick("dist", lambda x: x["w"] == md["w"]) if rng.random() < 0.9 else self.pick("dist")
+            # prefer a distribution that comes from ANOTHER dict / measurement set (different support), same normalisation
+            other = [i for i, m in enumerate(self.meta) if m and m["k"] == "dist" and m["w"] == md["w"] and not m.get("nb")
+                     and m.get("src") != md.get("src") and bool(m.get("normalized")) == bool(md.get("normalized"))]
+            if other and rng.random() < 0.7:
+                e = rng.choice(other)
+                if rng.random() < 0.5:
+                    d, e, md = e, d, self.meta[e]
             if md.get("nb") or self.meta[e].get("nb"):
                 return False
             E({"op": "report", "kind": "distance", "measure": rng.choice(["cnll", "mmd", "jsd"]), "args": [d, e]}, None)
         elif choice == "representing":
-            if not md.get("normalized") or md.get("nb"):
+            if md.get("nb"):
                 return False
             E({"op": "meas_representing", "args": [d], "n": rng.randrange(1, 12), "seed": rng.randrange(2 ** 31)},
               {"k": "meas", "w": md["w"], "n": 1})
@@ -1965,6 +2379,7 @@ def _history(rng, big, family, malformed=False):
             "wf": [lambda: g.wf_call(malformed), g.pauli_call, lambda: g.wf_call(malformed)],
             "wfsym": [g.wfsym_call, g.wfsym_call, lambda: g.wf_call(malformed)],
             "mixed": [g.circuit_call, g.pauli_call, g.meas_call, lambda: g.dist_call(malformed), lambda: g.wf_call(malformed)]}[family]
+    fams = fams * 4 + [g.forms_call] * max(1, len(fams))   # one call in five: an operator / protocol form outside the model
     guard = 0
     while len(g.calls) < target and guard < 200:
         guard += 1
